@@ -183,6 +183,14 @@ class Client:
         via_factory = spec.get('via_factory', False)
         treg = trans_fs.transition_function_registry
         comps = [self._tproxy(n, trans_fs.factory(n) if via_factory else treg[n]) for n in spec['chain']]
+        if spec.get('nest'):
+            # a chain inside the chain (chain is itself a registered transition function)
+            i, j = spec['nest']
+            inner = comps[i:j]
+            if inner:
+                nested = (trans_fs.factory('chain', transition_functions=inner) if via_factory
+                          else functools.partial(treg['chain'], transition_functions=inner))
+                comps = comps[:i] + [nested] + comps[j:]
         if via_factory:
             transition = trans_fs.factory('chain', transition_functions=comps)
         else:
@@ -493,6 +501,33 @@ class Sim:
               'complog': list(cl.complog), 'rlog': list(cl.rlog), 'tlog': list(cl.tlog),
               'valid0': cl.valid[j], 'pool_index': j}
         self._finish_step(cl, ev, None)
+
+    def op_scan(self, cl, aname, i):
+        """one action from every agent pose (cell x heading) of one map, functionally"""
+        if not cl.pool or aname not in cl.actions:
+            return
+        base = world_of(cl.pool[i % len(cl.pool)])
+        self.ctx.probe('pose_scan')
+        for y in range(base['h']):
+            for x in range(base['w']):
+                for hd in ('FORWARD', 'RIGHT', 'BACKWARD', 'LEFT'):
+                    w0 = dict(base, agent=(y, x, hd, base['agent'][3]))
+                    s0 = mk_state(w0)
+                    w0 = world_of(s0)
+                    cl.complog.clear()
+                    cl.rlog.clear()
+                    cl.tlog.clear()
+                    r = sut(cl.env.functional_step, s0, action_of(aname))
+                    ev = {'kind': 'step', 'stateful': False, 's0': s0, 'w0': w0, 'action': aname, 'out': r,
+                          'complog': list(cl.complog), 'rlog': list(cl.rlog), 'tlog': list(cl.tlog), 'valid0': False, 'scan': True}
+                    ev['w0_after'] = world_of(s0)
+                    if isinstance(r, Raised):
+                        self.ctx.count('sut_exception')
+                    else:
+                        ev['s1'], ev['reward'], ev['terminal'] = r
+                        ev['w1'] = world_of(r[0])
+                    self.emit('on_step', cl, ev)
+        self.ctx.log('scan', cl.idx, aname, wkey(base))
 
     def op_fobs(self, cl, i):
         if not cl.pool:
